@@ -41,6 +41,13 @@ MUTANTS = [
     ('c16-scope-enabled-ctx-unspecified', 'malt/operators/function_wrappers.py',
      'ag_ctx.ControlStatusCtx(ag_ctx.Status.ENABLED,', 'ag_ctx.ControlStatusCtx(ag_ctx.Status.UNSPECIFIED,',
      ['malt.operators.function_wrappers.FunctionScope.__init__']),
+    ('df-worklist-drops-revisit', 'malt/pyct/cfg.py', 'if should_revisit or next_ not in closed:',
+     'if next_ not in closed:', ['malt.pyct.cfg.GraphVisitor._visit_internal']),
+    ('df-worklist-wrong-direction', 'malt/pyct/cfg.py', '''      if mode == _WalkMode.FORWARD:
+        children = node.next''', '''      if mode == _WalkMode.FORWARD:
+        children = node.prev''', ['malt.pyct.cfg.GraphVisitor._visit_internal']),
+    ('df-worklist-reverse-starts-at-entry', 'malt/pyct/cfg.py', 'open_ = list(self.graph.exit)',
+     'open_ = [self.graph.entry]', ['malt.pyct.cfg.GraphVisitor._visit_internal']),
 ]
 
 DRIVER = r'''
